@@ -3,9 +3,12 @@ import ChiModel.LogLikS1
 import ChiModel.Reduced
 import ChiModel.Labels
 import ChiModel.ReducedResize
+import ChiModel.TopLevel
 import ChiProofs.Props.C02
 import ChiProofs.Props.C08
+import ChiProofs.Props.C07
 import Mathlib.Data.List.Nodup
+import Mathlib.Data.List.Dedup
 set_option linter.unusedSectionVars false
 set_option linter.unusedSimpArgs false
 set_option linter.unusedVariables false
@@ -380,3 +383,216 @@ theorem C17_resize_free_count_counterexample :
     (view new 0 (resizeFreeCount 0 old new st)).length = 5 := by
   decide
 end ChiModel.Reduced
+
+/-! ## names and counts at the top level only; selections that list pairs repeatedly -/
+namespace ChiModel.TopLevel
+
+theorem flatten_replicate_length (n : Nat) (b : List String) :
+    (List.replicate n b).flatten.length = n * b.length := by
+  induction n with
+  | zero => simp
+  | succ k ih => rw [List.replicate_succ, List.flatten_cons, List.length_append, ih]; ring
+
+theorem bottomIds_length (h : HLL) : h.bottomIds.length = h.nBottom := by
+  unfold HLL.bottomIds HLL.nBottom
+  induction h.ids with
+  | nil => simp
+  | cons i is ih => rw [List.flatMap_cons, List.length_append, ih]; simp; ring
+
+theorem bottomIds_some (h : HLL) : ∀ x ∈ h.bottomIds, x.isSome = true := by
+  intro x hx
+  unfold HLL.bottomIds at hx
+  rw [List.mem_flatMap] at hx
+  obtain ⟨i, _, hi⟩ := hx
+  rw [List.mem_replicate] at hi
+  rw [hi.2]; rfl
+
+theorem zipWith_prefix_none (top : List String) :
+    List.zipWith prefixName (List.replicate top.length none) top = top := by
+  induction top with
+  | nil => rfl
+  | cons t ts ih => simp [List.replicate_succ, prefixName, ih]
+
+/-- every name list is `(individual-level block of n_bottom names) ++ (the population model's names)` -/
+theorem allNames_split (h : HLL) (inc : Bool) :
+    ∃ b : List String, b.length = h.nBottom ∧ h.allNames inc = b ++ h.top := by
+  cases inc with
+  | false =>
+    exact ⟨(List.replicate h.ids.length h.bottom).flatten, flatten_replicate_length _ _, rfl⟩
+  | true =>
+    refine ⟨List.zipWith prefixName h.bottomIds (List.replicate h.ids.length h.bottom).flatten, ?_, ?_⟩
+    · rw [List.length_zipWith, bottomIds_length, flatten_replicate_length]; simp [HLL.nBottom]
+    · show List.zipWith prefixName h.getId h.rawNames = _
+      unfold HLL.getId HLL.rawNames
+      rw [List.zipWith_append (by rw [bottomIds_length, flatten_replicate_length]; rfl), zipWith_prefix_none]
+
+
+/-- C17 (hierarchical names, all levels and top level only): for every list of individuals, every list of
+    individual-level names and every list of population names — the EMPTY one included (all population
+    parameters fixed) — and with or without ID prefixes: the top-level names are exactly the population model's
+    names, their number is the reported top-level count, the full list has the reported length and ends with
+    the top-level names, and the IDs have that length and mark exactly the first `n_bottom` entries. -/
+theorem C17_top_level_names (h : HLL) (inc : Bool) :
+    h.parameterNames true inc = h.top ∧
+    (h.parameterNames true inc).length = h.nParameters true ∧
+    (h.parameterNames false inc).length = h.nParameters false ∧
+    h.parameterNames false inc = (h.parameterNames false inc).take h.nBottom ++ h.parameterNames true inc ∧
+    h.getId.length = h.nParameters false ∧
+    (∀ j, j < h.nParameters false → ((h.getId.getD j none).isSome = true ↔ j < h.nBottom)) := by
+  obtain ⟨b, hb, hsplit⟩ := allNames_split h inc
+  have htop : h.parameterNames true inc = h.top := by
+    simp only [HLL.parameterNames, if_true, sliceFrom, hsplit]
+    rw [← hb, List.drop_left]
+  have hall : h.parameterNames false inc = b ++ h.top := by
+    simp only [HLL.parameterNames, hsplit]; rfl
+  refine ⟨htop, ?_, ?_, ?_, ?_, ?_⟩
+  · rw [htop]; rfl
+  · rw [hall, List.length_append, hb]; rfl
+  · rw [htop, hall, ← hb, List.take_left]
+  · simp [HLL.getId, bottomIds_length, HLL.nParameters]
+  · intro j hj
+    unfold HLL.getId
+    by_cases hlt : j < h.nBottom
+    · have hl : j < h.bottomIds.length := by rw [bottomIds_length]; exact hlt
+      rw [List.getD_append _ _ _ _ hl]
+      simp only [hlt, iff_true]
+      rw [List.getD_eq_getElem _ _ hl]
+      exact bottomIds_some h _ (List.getElem_mem hl)
+    · have hl : h.bottomIds.length ≤ j := by rw [bottomIds_length]; omega
+      rw [List.getD_append_right _ _ _ _ hl]
+      simp only [hlt, iff_false]
+      simp [List.getD_eq_getElem?_getD, List.getElem?_replicate]
+      split <;> simp
+
+/-- counting the top-level names from the END of the list (`names[-n_top:]`) gives the same list exactly when
+    there is at least one population parameter or no individual-level parameter at all -/
+theorem C17_top_names_from_end_iff (h : HLL) (inc : Bool) :
+    h.parameterNamesFromEnd true inc = h.parameterNames true inc ↔ (h.top ≠ [] ∨ h.nBottom = 0) := by
+  obtain ⟨b, hb, hsplit⟩ := allNames_split h inc
+  rw [(C17_top_level_names h inc).1]
+  simp only [HLL.parameterNamesFromEnd, if_true, sliceLast, hsplit]
+  by_cases ht : h.top = []
+  · simp only [ht, List.length_nil, if_true, List.append_nil, ne_eq, not_true_eq_false, false_or]
+    rw [← hb]
+    exact List.length_eq_zero_iff.symm
+  · have hpos : h.top.length ≠ 0 := fun h0 => ht (List.length_eq_zero_iff.mp h0)
+    simp only [hpos, if_false, ht, ne_eq, not_false_eq_true, true_or, iff_true]
+    rw [List.length_append, Nat.add_sub_cancel, List.drop_left]
+
+/-- … and the witness (seeded change C17-11): three individuals with two individual-level names each, every
+    population parameter fixed — the reported top-level count is 0, the end-counted "top-level names" are all
+    six individual-level names -/
+theorem C17_top_names_from_end_counterexample :
+    let h : HLL := ⟨["A", "B", "C"], ["Initial count", "Growth rate"], []⟩
+    h.nParameters true = 0 ∧ h.parameterNames true false = [] ∧ h.parameterNames true true = [] ∧
+    (h.parameterNamesFromEnd true false).length = 6 ∧
+    h.parameterNamesFromEnd true true =
+      ["A Initial count", "A Growth rate", "B Initial count", "B Growth rate", "C Initial count", "C Growth rate"] := by
+  decide
+
+
+/-- C17 (a hierarchical object over a reduced population model, after every `fix_parameters` history): the number
+    of top-level names is the number of free population parameters, the full count is
+    `n_ids · (individual-level names) + free`, and when every population parameter is fixed the top-level name
+    list is EMPTY while the full list still has all individual-level names. -/
+theorem C17_top_level_names_reduced {α : Type} (ids bottom popNames : List String) (g : α)
+    (ops : List (Reduced.Req α)) (inc : Bool) :
+    let c := Reduced.view popNames g (Reduced.run popNames g ops)
+    let h : HLL := ⟨ids, bottom, Reduced.restrict c popNames⟩
+    (h.parameterNames true inc).length = Reduced.nFree c ∧
+    (h.parameterNames false inc).length = ids.length * bottom.length + Reduced.nFree c ∧
+    (Reduced.nFree c = 0 → h.parameterNames true inc = [] ∧
+      (h.parameterNames false inc).length = ids.length * bottom.length) := by
+  intro c h
+  have hfree : Reduced.nFree c = (Reduced.restrict c popNames).length :=
+    (C17_reduced_lengths popNames g ops popNames rfl).1
+  obtain ⟨h1, h2, h3, -, -, -⟩ := C17_top_level_names h inc
+  refine ⟨?_, ?_, ?_⟩
+  · rw [h1, hfree]
+  · rw [h3, hfree]; rfl
+  · intro h0
+    rw [hfree] at h0
+    have hnil : Reduced.restrict c popNames = [] := List.length_eq_zero_iff.mp h0
+    refine ⟨by rw [h1]; exact hnil, ?_⟩
+    rw [h3]
+    show ids.length * bottom.length + (Reduced.restrict c popNames).length = _
+    rw [h0]; rfl
+
+/-! ## a selection that lists pairs repeatedly -/
+
+theorem normSel_length (indices : List Pair) : (normSel indices).length = indices.dedup.length := by
+  obtain ⟨hnd, -, hmem⟩ := C07_selection indices
+  exact ((List.perm_ext_iff_of_nodup hnd (List.nodup_dedup indices)).mpr
+    (fun x => by rw [hmem, List.mem_dedup])).length_eq
+
+theorem covDefaultNames_length (nCov n : Nat) : (covDefaultNames nCov n).length = nCov * n := by
+  unfold covDefaultNames
+  induction n with
+  | zero => simp
+  | succ k ih =>
+    rw [List.range_succ, List.flatMap_append, List.length_append, ih]
+    simp; ring
+
+/-- C17 (`set_population_parameters` with ANY list of pairs, repetitions included): the covariate model's
+    parameter count is `n_cov ·` (number of DISTINCT pairs of the list) = the number of its default names; through
+    the wrapper, the reported names and the reported count are `n_pop + n_cov · distinct`, and so is the length of
+    the gradient. -/
+theorem C17_selection_count (m : CovModel) (indices : List Pair) (hb : m.baseNames.length = m.perDim * m.nDim) :
+    covNParameters m.nCov indices = m.nCov * indices.dedup.length ∧
+    (covDefaultNames m.nCov (normSel indices).length).length = covNParameters m.nCov indices ∧
+    (m.setPop false indices).nParameters = m.perDim * m.nDim + covNParameters m.nCov indices ∧
+    ((m.setPop false indices).parameterNames false).length = (m.setPop false indices).nParameters ∧
+    ((m.setPop false indices).parameterNames true).length = (m.setPop false indices).nParameters ∧
+    (∀ {α : Type} [Add α] [Sub α] [Mul α] [Div α] [Neg α] [ScalarFns α] (nIds : Nat)
+        (g : Nat → Nat → Nat → α) (cov : Nat → Nat → α),
+      (covSens ⟨m.nDim, m.perDim, m.nCov, normSel indices⟩ nIds g cov).length
+        = (m.setPop false indices).nParameters) := by
+  have hn : (m.setPop false indices).nParameters = m.perDim * m.nDim + covNParameters m.nCov indices := rfl
+  have hstored : (withCovNames m.nCov (m.setPop false indices).stored m.covNames).length
+      = m.nCov * (normSel indices).length := by
+    simp only [withCovNames, List.length_map, List.length_range, CovModel.setPop, selNames, if_false,
+      Bool.false_eq_true]
+    generalize normSel indices = l
+    induction l with
+    | nil => simp
+    | cons x xs ih => rw [List.flatMap_cons, List.length_append, ih]; simp; ring
+  refine ⟨by unfold covNParameters; rw [normSel_length], covDefaultNames_length _ _, hn, ?_, ?_, ?_⟩
+  · rw [hn]
+    simp only [CovModel.parameterNames, Bool.false_eq_true, if_false, List.length_append, popFullNames,
+      List.length_map, List.length_range]
+    show m.baseNames.length + (withCovNames m.nCov (m.setPop false indices).stored m.covNames).length = _
+    rw [hstored, hb]; rfl
+  · rw [hn]
+    simp only [CovModel.parameterNames, if_true, List.length_append]
+    show m.baseNames.length + (withCovNames m.nCov (m.setPop false indices).stored m.covNames).length = _
+    rw [hstored, hb]; rfl
+  · intro α _ _ _ _ _ _ nIds g cov
+    rw [(C07_grad_entries _ nIds g cov).1, hn]
+    simp only [CovCfg.nParams, CovCfg.nPop, CovCfg.nBeta, covNParameters]
+    ring
+
+/-- counting the caller's list instead of the stored selection gives the same number exactly when no pair is
+    listed twice (or there is no covariate) -/
+theorem C17_selection_raw_count_iff (nCov : Nat) (indices : List Pair) :
+    covNParametersRaw nCov indices = covNParameters nCov indices ↔ (nCov = 0 ∨ indices.Nodup) := by
+  unfold covNParametersRaw covNParameters
+  rw [normSel_length]
+  constructor
+  · intro h
+    by_cases h0 : nCov = 0
+    · exact Or.inl h0
+    · right
+      have hl : indices.length = indices.dedup.length := Nat.eq_of_mul_eq_mul_left (Nat.pos_of_ne_zero h0) h
+      exact List.dedup_eq_self.mp ((List.dedup_sublist indices).eq_of_length hl.symm)
+  · rintro (h0 | hnd)
+    · simp [h0]
+    · rw [List.dedup_eq_self.mpr hnd]
+
+/-- … and the witness (seeded change C17-12): one pair listed twice, one covariate — two parameters and two
+    default names are reported, one pair is transformed and the gradient has one covariate entry -/
+theorem C17_selection_raw_count_counterexample :
+    covNParametersRaw 1 [(0, 0), (0, 0)] = 2 ∧ (covDefaultNames 1 [(0, 0), ((0, 0) : Pair)].length).length = 2 ∧
+    normSel [(0, 0), (0, 0)] = [(0, 0)] ∧ covNParameters 1 [(0, 0), (0, 0)] = 1 := by
+  decide
+
+end ChiModel.TopLevel
